@@ -7,7 +7,7 @@ P="$(readlink -f "$1")"; shift
 WT=/tmp/mt.$$
 git -C /repo worktree add -q --detach $WT HEAD || exit 2
 trap 'git -C /repo worktree remove --force $WT; git -C /repo worktree prune' EXIT
-git -C $WT apply "$P" || { echo "patch does not apply"; exit 2; }
+git -C $WT apply --3way "$P" >/dev/null 2>&1 || git -C $WT apply "$P" || { echo "patch does not apply"; exit 2; }
 cd /verif
 for prop in "$@"; do
   out=$(SIMRF_REPO_SRC=$WT/src SIMRF_NO_EVIDENCE=1 timeout 1200 ./check "$prop" --tier "${TIER:-quick}" 2>&1); rc=$?
